@@ -36,6 +36,7 @@ QUICK = [
     _k('periodic_contract_spread_dur', opt='periodic', kind='contract', T=8, ec=True, duration='4h'),
     _k('periodic_storage', opt='periodic', kind='storage', T=4, eff=0.75),
     _k('periodic_transport', opt='periodic', kind='transport', T=4, eff=0.5),
+    _k('periodic_transport_costs', opt='periodic', kind='transport', T=4, eff=0.5, costs=True),
     _k('periodic_plant', opt='periodic', kind='plant', T=4),
     _k('coarse_contract_dst_days_q', opt='coarse', kind='contract', T=4, coarse='2d', freq=('d', '2021-03-27', '2021-03-31', 'CET')),
 ]
@@ -48,7 +49,6 @@ THOROUGH = QUICK + [
     _k('coarse_contract_straddles_end', opt='coarse', kind='contract', T=5, win=(1, 8)),
     _k('coarse_contract_halfhour', opt='coarse', kind='contract', T=4, freq='30min', coarse='h'),
     _k('periodic_contract_caps_ts', opt='periodic', kind='caps_ts', T=4),
-    _k('periodic_transport_costs', opt='periodic', kind='transport', T=4, eff=0.5, costs=True),
     _k('periodic_multicommodity', opt='periodic', kind='multicommodity', T=4),
     _k('periodic_storage_dur_T8', opt='periodic', kind='storage', T=8, eff=0.75, duration='4h'),
     _k('periodic_contract_window', opt='periodic', kind='contract', T=6, win=(1, 5)),
